@@ -26,6 +26,62 @@ fn aln_json(a: &Alignment) -> Value {
     })
 }
 
+thread_local! {
+    /// ONE `Alignment` object handed to every alignment-filling call of this driver process:
+    /// it travels from matcher to matcher (other pattern lengths, other implementation), from
+    /// the eager to the lazy API and back, and is sometimes overwritten with garbage first.
+    static ALN: std::cell::RefCell<(Alignment, u64)> = std::cell::RefCell::new((Alignment::default(), 0));
+}
+
+/// Prepare the recycled Alignment for the next call; returns what it holds (recorded with the
+/// call, the specification does not look at it): [mode, xstart, xend, xlen, number of operations]
+fn aln_prepare() -> Value {
+    ALN.with(|cell| {
+        let mut g = cell.borrow_mut();
+        g.1 += 1;
+        let n = g.1;
+        if n % 11 == 0 {
+            g.0 = Alignment::default();
+        } else if n % 3 == 0 {
+            use bio::alignment::AlignmentMode::*;
+            let a = &mut g.0;
+            a.score = -7;
+            a.xstart = 3;
+            a.xend = 999;
+            a.xlen = 1000;
+            a.ystart = 5;
+            a.yend = 6;
+            a.ylen = 7;
+            a.mode = [Semiglobal, Local, Custom, Global][((n / 3) % 4) as usize];
+            a.operations = vec![AlignmentOperation::Xclip(3); 50];
+        }
+        let a = &g.0;
+        json!([format!("{:?}", a.mode), num(a.xstart), num(a.xend), num(a.xlen), a.operations.len()])
+    })
+}
+
+/// coverage counters of the recycling (from what went in and what came out)
+fn aln_oblige(log: &mut Log, pre: &Value, r: &Value) {
+    if r.get("found").and_then(|v| v.as_i64()) != Some(1) {
+        return;
+    }
+    let semi = pre[0].as_str() == Some("Semiglobal");
+    let garbage = pre[2].as_i64() == Some(999);
+    let xlen_out = r["aln"]["xlen"].as_i64();
+    if semi && !garbage && pre[3].as_i64() != xlen_out && pre[3].as_i64() != Some(0) {
+        log.oblige("aln_recycled_from_other_pattern_length");
+    }
+    if garbage && semi {
+        log.oblige("aln_prefilled_garbage_semiglobal");
+    }
+    if garbage && !semi {
+        log.oblige("aln_prefilled_garbage_other_mode");
+    }
+    if pre[4].as_i64().unwrap_or(0) > r["aln"]["ops"].as_array().map(|a| a.len() as i64).unwrap_or(0) {
+        log.oblige("aln_recycled_longer_operations_vector");
+    }
+}
+
 /// a reported path with at least one edit and at least one match
 fn mixed_path(r: &Value) -> bool {
     let ops = r.get("ops").or_else(|| r.get("aln").and_then(|a| a.get("ops")));
@@ -74,14 +130,21 @@ macro_rules! eager_op {
                     None => json!({"v": [], "ops": []}),
                 }
             }),
-            "next_alignment" => $log.call("next_alignment", json!({"obj": $obj}), || {
-                let mut aln = Alignment::default();
-                if $it.next_alignment(&mut aln) {
-                    json!({"found": 1, "aln": aln_json(&aln)})
-                } else {
-                    json!({"found": 0})
-                }
-            }),
+            "next_alignment" => {
+                let pre = aln_prepare();
+                let r = $log.call("next_alignment", json!({"obj": $obj, "pre": pre.clone()}), || {
+                    ALN.with(|cell| {
+                        let mut g = cell.borrow_mut();
+                        if $it.next_alignment(&mut g.0) {
+                            json!({"found": 1, "aln": aln_json(&g.0)})
+                        } else {
+                            json!({"found": 0})
+                        }
+                    })
+                });
+                aln_oblige($log, &pre, &r);
+                r
+            }
             "start" => $log.call("start", json!({"obj": $obj}), || match $it.start() {
                 Some(s) => json!({"v": [num(s)]}),
                 None => json!({"v": []}),
@@ -94,14 +157,21 @@ macro_rules! eager_op {
                     None => json!({"v": [], "ops": []}),
                 }
             }),
-            _ => $log.call("alignment", json!({"obj": $obj}), || {
-                let mut aln = Alignment::default();
-                if $it.alignment(&mut aln) {
-                    json!({"found": 1, "aln": aln_json(&aln)})
-                } else {
-                    json!({"found": 0})
-                }
-            }),
+            _ => {
+                let pre = aln_prepare();
+                let r = $log.call("alignment", json!({"obj": $obj, "pre": pre.clone()}), || {
+                    ALN.with(|cell| {
+                        let mut g = cell.borrow_mut();
+                        if $it.alignment(&mut g.0) {
+                            json!({"found": 1, "aln": aln_json(&g.0)})
+                        } else {
+                            json!({"found": 0})
+                        }
+                    })
+                });
+                aln_oblige($log, &pre, &r);
+                r
+            }
         }
     }};
 }
@@ -128,14 +198,21 @@ macro_rules! lazy_op {
                     None => json!({"v": [], "ops": []}),
                 }
             }),
-            _ => $log.call("alignment_at", json!({"obj": $obj, "e": e}), || {
-                let mut aln = Alignment::default();
-                if $it.alignment_at(e, &mut aln) {
-                    json!({"found": 1, "aln": aln_json(&aln)})
-                } else {
-                    json!({"found": 0})
-                }
-            }),
+            _ => {
+                let pre = aln_prepare();
+                let r = $log.call("alignment_at", json!({"obj": $obj, "e": e, "pre": pre.clone()}), || {
+                    ALN.with(|cell| {
+                        let mut g = cell.borrow_mut();
+                        if $it.alignment_at(e, &mut g.0) {
+                            json!({"found": 1, "aln": aln_json(&g.0)})
+                        } else {
+                            json!({"found": 0})
+                        }
+                    })
+                });
+                aln_oblige($log, &pre, &r);
+                r
+            }
         }
     }};
 }
@@ -341,6 +418,8 @@ struct Case<'a> {
     texts: &'a [Vec<u8>],
     objs: &'a [Obj],
     searches: &'a [Search],
+    /// build the objects from this (reused) builder instead of a fresh one made from `tb`
+    builder: Option<&'a bio::pattern_matching::myers::MyersBuilder>,
 }
 
 fn run_one(log: &mut Log, tag: &str, seed: u64, case: u64, c: &Case) {
@@ -358,7 +437,10 @@ fn run_one(log: &mut Log, tag: &str, seed: u64, case: u64, c: &Case) {
     for (oi, o) in c.objs.iter().enumerate() {
         let mut mx: Option<Mx> = None;
         log.call("new", json!({"obj": oi + 1}), || {
-            mx = Some(build(o.long_impl, o.w, c.p, c.tb));
+            mx = Some(match c.builder {
+                Some(b) => build_from(b, o.long_impl, o.w, c.p),
+                None => build(o.long_impl, o.w, c.p, c.tb),
+            });
             json!({})
         });
         match mx {
@@ -542,7 +624,7 @@ pub fn drive(log: &mut Log) {
                 }
             }
             let objs = [Obj { long_impl: false, w: 8 }, Obj { long_impl: true, w: 8 }];
-            run_one(log, "ex", seed, case, &Case { p, tb: &none, texts: chunk, objs: &objs, searches: &searches });
+            run_one(log, "ex", seed, case, &Case { p, tb: &none, texts: chunk, objs: &objs, searches: &searches, builder: None });
             log.oblige("exhaustive_small");
         }
     }
@@ -664,7 +746,7 @@ pub fn drive(log: &mut Log) {
             if !tb.is_empty() {
                 log.oblige("tables");
             }
-            run_one(log, "bd", seed, case, &Case { p: &p, tb: &tb, texts: &texts, objs: &objs, searches: &searches });
+            run_one(log, "bd", seed, case, &Case { p: &p, tb: &tb, texts: &texts, objs: &objs, searches: &searches, builder: None });
         }
     }
 
@@ -720,7 +802,7 @@ pub fn drive(log: &mut Log) {
             ];
             let objs = [Obj { long_impl: false, w: ws }, Obj { long_impl: true, w: wl }];
             log.oblige("reuse_guard_column_leading_insertions_over_one_block");
-            run_one(log, "gd", seed, case, &Case { p: &p, tb: &none, texts: &texts, objs: &objs, searches: &searches });
+            run_one(log, "gd", seed, case, &Case { p: &p, tb: &none, texts: &texts, objs: &objs, searches: &searches, builder: None });
         }
     }
 
@@ -769,7 +851,7 @@ pub fn drive(log: &mut Log) {
         let ws = if m <= 32 { 32 } else { 64 };
         let objs = [Obj { long_impl: false, w: ws }, Obj { long_impl: true, w }];
         log.oblige("unary_run_to_block_boundary");
-        run_one(log, "ur", seed, case, &Case { p: &p, tb: &none, texts: &texts, objs: &objs, searches: &searches });
+        run_one(log, "ur", seed, case, &Case { p: &p, tb: &none, texts: &texts, objs: &objs, searches: &searches, builder: None });
     }
 
     // (d) the edit budget is used up exactly at a block seam (am_common::seam_case): a hit of
@@ -805,7 +887,7 @@ pub fn drive(log: &mut Log) {
                             let ws = if p.len() <= 32 { 32 } else { 64 };
                             let objs = [Obj { long_impl: false, w: ws }, Obj { long_impl: true, w }];
                             log.oblige("budget_exhausted_at_seam");
-                            run_one(log, "sb", seed, case, &Case { p: &p, tb: &none, texts: &texts, objs: &objs, searches: &searches });
+                            run_one(log, "sb", seed, case, &Case { p: &p, tb: &none, texts: &texts, objs: &objs, searches: &searches, builder: None });
                         }
                     }
                 }
@@ -835,9 +917,47 @@ pub fn drive(log: &mut Log) {
         ];
         let ws = if wt.p.len() <= 32 { 32 } else { 64 };
         let objs = [Obj { long_impl: false, w: ws }, Obj { long_impl: true, w: wt.w }];
-        run_one(log, "gs", seed, c, &Case { p: &wt.p, tb: &none, texts: &texts, objs: &objs, searches: &searches });
+        run_one(log, "gs", seed, c, &Case { p: &wt.p, tb: &none, texts: &texts, objs: &objs, searches: &searches, builder: None });
     }
-    let _ = case;
+    builder_histories(log, seed, case);
+}
+
+/// (f) builder histories: ONE MyersBuilder object is re-configured between builds - the same
+///     ambiguity byte is defined again (widened, narrowed, reset), wildcards are added - and
+///     after every stage a single-word and a block-based matcher are built from it and searched
+///     eagerly and lazily. The run header of every stage lists all calls made on the builder so
+///     far. The ambiguous symbols sit on the first rows of the blocks (and elsewhere).
+fn builder_histories(log: &mut Log, seed: u64, case0: u64) -> u64 {
+    let mut case = case0;
+    let n = log.opts.n(8, 48);
+    for i in 0..n {
+        case += 1;
+        if !log.mine(case) {
+            continue;
+        }
+        let mut rng = Rng::new(seed, 47, case);
+        let wl = if i % 4 == 3 { 16 } else { 8 };
+        let m = wl + 1 + rng.below(2 * wl as u64) as usize;
+        let (p, texts) = ambig_pattern_and_texts(&mut rng, m, wl);
+        let mut h = BuilderHistory::new();
+        for stage in 0..4 {
+            builder_stage(&mut h, stage);
+            let searches = vec![
+                Search { ti: 1, k: 0, lazy: false, max_hits: 99, style: rng.below(4), light: false },
+                Search { ti: 1, k: 1, lazy: true, max_hits: 99, style: rng.below(4), light: false },
+                Search { ti: 2, k: 1, lazy: false, max_hits: 99, style: rng.below(4), light: true },
+                Search { ti: 3, k: 2, lazy: stage % 2 == 0, max_hits: 99, style: rng.below(4), light: true },
+            ];
+            let ws = if m <= 32 { 32 } else { 64 };
+            let objs = [Obj { long_impl: false, w: ws }, Obj { long_impl: true, w: wl }];
+            if stage > 0 {
+                log.oblige("builder_reused_with_redefinition");
+            }
+            let calls = h.calls.clone();
+            run_one(log, "bh", seed, case, &Case { p: &p, tb: &calls, texts: &texts, objs: &objs, searches: &searches, builder: Some(&h.builder) });
+        }
+    }
+    case
 }
 
 fn main() {
